@@ -120,6 +120,14 @@ def _broadcast(fx, np, pid, tx, ty):
                     bx, by = np.broadcast_arrays(cxa, cya)
                     Zs.append((name, x_arith.apply(fx, np, op, Xb, Yb, ['operator', 'function', 'numpy'][(nx + ny + len(op)) % 3]),
                                [int(c) for c in bx.ravel().tolist()], [int(c) for c in by.ravel().tolist()]))
+                if tuple(tx) == tuple(ty):
+                    # aliasing: the SAME object on both sides, and an operand next to an element / a view of itself
+                    Xa = x_arith.mk(fx, np, tx, xs)
+                    Zs.append(('same-object', x_arith.apply(fx, np, op, Xa, Xa, ['operator', 'function', 'numpy'][len(xs) % 3]), xs, xs))
+                    Xe = x_arith.mk(fx, np, tx, xs)
+                    Zs.append(('with-own-element', x_arith.apply(fx, np, op, Xe, Xe[len(xs) - 1], 'operator'), xs, [xs[-1]] * len(xs)))
+                    Xv = x_arith.mk(fx, np, tx, xs)
+                    Zs.append(('with-own-reversed-view', x_arith.apply(fx, np, op, Xv, Xv[::-1], 'operator'), xs, xs[::-1]))
                 for name, Z, cx, cy in Zs:
                     if name == 'scalar-array':
                         row = dict(base, x=base['y'], y=base['x'], cx=[common.wint(b)] * len(xs), cy=[common.wint(c) for c in xs])
